@@ -17,6 +17,7 @@
 #![allow(dead_code)]
 
 mod calls;
+mod monadic;
 mod expr;
 mod prelude;
 mod stmt;
@@ -70,7 +71,7 @@ fn main() {
 
 fn run(root: PathBuf, out_dir: PathBuf, overrides: HashMap<String, PathBuf>) -> Res<usize> {
     for rel in overrides.keys() {
-        let known = targets::TARGETS.iter().any(|t| t.file == rel) || targets::FLAT_STRUCTS.iter().any(|(_, f)| f == rel) || targets::ALIAS_FILES.contains(&rel.as_str());
+        let known = targets::TARGETS.iter().any(|t| t.file == rel) || targets::FLAT_STRUCTS.iter().any(|(_, f)| f == rel) || targets::ALIAS_FILES.contains(&rel.as_str()) || rel == monadic::PGN.file;
         if !known { return Err(format!("--override {}: no target reads this file", rel)); }
     }
     let mut world = World {
@@ -158,6 +159,18 @@ fn run(root: PathBuf, out_dir: PathBuf, overrides: HashMap<String, PathBuf>) -> 
         s.push_str(&m.items.join("\n\n"));
         s.push_str("\n\nend Inkayaku.Rs\n");
         write(&out_dir.join(format!("{}.lean", name)), &s)?;
+        n += 1;
+    }
+    {
+        // monadic mode: the PGN reader
+        let spec = &monadic::PGN;
+        let text = monadic::generate(&mut world, spec)?;
+        let mut s = header(&format!("Module `{}` (MONADIC MODE: `&mut self` methods as `do` blocks in the state monad `RsM`; see the module documentation of translator/src/monadic.rs and the header of `Prelude.lean`).", spec.module), &[spec.file.to_string()]);
+        s.push_str("-/\nimport Inkayaku.Gen.Rs.Prelude\n");
+        s.push_str("\nset_option linter.unusedVariables false\n\nnamespace Inkayaku.Rs\n\n");
+        s.push_str(&text);
+        s.push_str("\n\nend Inkayaku.Rs\n");
+        write(&out_dir.join(format!("{}.lean", spec.module)), &s)?;
         n += 1;
     }
     Ok(n)
@@ -266,7 +279,8 @@ fn find_items(world: &World, t: &Target) -> Vec<Found> {
                 }
             }
             (syn::Item::Impl(im), Container::Impl(n)) if im.trait_.is_none() && type_last_ident(&im.self_ty).as_deref() == Some(n) => impl_items(im, t.name, &mut hits),
-            (syn::Item::Impl(im), Container::ImplTrait(trn, n)) if im.trait_.as_ref().and_then(|(_, p, _)| p.segments.last().map(|s| s.ident.to_string())).as_deref() == Some(trn)
+            // (`ImplTrait("From<&Fen>", "Bitboard")`: a trait name with generic arguments is compared as written, without spaces)
+            (syn::Item::Impl(im), Container::ImplTrait(trn, n)) if im.trait_.as_ref().and_then(|(_, p, _)| p.segments.last().map(|s| if trn.contains('<') { s.to_token_stream().to_string().replace(' ', "") } else { s.ident.to_string() })).as_deref() == Some(trn)
                 && type_last_ident(&im.self_ty).as_deref() == Some(n) => impl_items(im, t.name, &mut hits),
             _ => {}
         }
@@ -311,6 +325,7 @@ fn new_tr<'w>(world: &'w World, t: &'w Target, lean_fn: String) -> FnTr<'w> {
         subst: HashMap::new(), struct_subst: HashMap::new(), pending: vec![], effect_allowed: None,
         bits: matches!(t.what, What::Fn { bits: true, .. } | What::ConstB | What::PlaceFn),
         inout: vec![], writebacks: vec![], last_inout: vec![], in_call_stmt: false,
+        local_borrows: vec![], place_aliases: vec![], place_value_of: None, local_closures: vec![], struct_lit_pending_ok: false,
     }
 }
 
@@ -365,7 +380,7 @@ fn translate_target(world: &mut World, t: &'static Target) -> Res<(String, HashS
                 let ty = resolve_type_s(world, ty, None, &HashMap::new(), *bits).map_err(|m| format!("{}: struct {}.{}: {}", path, t.name, f, m))?;
                 // arrays / slices are lists (indexing is bounds-checked, like the Rust)
                 let ty = match ty { RTy::VecFn(el) => RTy::VecList(el), t => t };
-                let ok = match &ty { RTy::Int(_) | RTy::Bool | RTy::Char | RTy::U64 => true, RTy::VecList(el) => { all_prim = false; matches!(**el, RTy::Int(_) | RTy::Bool | RTy::Char | RTy::U64) } _ => false };
+                let ok = match &ty { RTy::Int(_) | RTy::Bool | RTy::Char | RTy::U64 | RTy::Str | RTy::Range(_) => true, RTy::Opt(el) => matches!(**el, RTy::Range(_) | RTy::Int(_)), RTy::VecList(el) => { all_prim = false; matches!(**el, RTy::Int(_) | RTy::Bool | RTy::Char | RTy::U64) } _ => false };
                 if !ok { return Err(format!("{}: struct {}.{}: only primitive fields and arrays of primitives are supported in a regenerated struct", path, t.name, f)); }
                 s.push_str(&format!("  /-- `{}` -/\n  {} : {}\n", ty.rust(), lean_ident(f), ty.lean()));
             }
@@ -684,9 +699,12 @@ fn translate_fn(world: &World, t: &'static Target, sig: &syn::Signature, block: 
     // opaque type variables
     let mut tyvars: Vec<String> = vec![];
     fn collect_opaque(t: &RTy, out: &mut Vec<String>) {
+        collect_opaque_i(t, out);
+    }
+    fn collect_opaque_i(t: &RTy, out: &mut Vec<String>) {
         match t {
             RTy::Opaque(n) if n.chars().all(|c| c.is_alphanumeric()) && n != "Nat" => { if !out.contains(n) { out.push(n.clone()); } }
-            RTy::Opaque(n) => for w in n.split(|c: char| !c.is_alphanumeric()) { if !w.is_empty() && w.chars().next().unwrap().is_uppercase() && !["Int", "Nat", "Bool", "Char", "Option", "List", "Unit", "UInt64", "HMap", "VecDeque", "Inkayaku", "Rs"].contains(&w) && !out.contains(&w.to_string()) { out.push(w.to_string()); } },
+            RTy::Opaque(n) => for w in n.split(|c: char| !c.is_alphanumeric()) { if !w.is_empty() && w.chars().next().unwrap().is_uppercase() && !["Int", "Nat", "Bool", "Char", "Option", "List", "Unit", "UInt64", "HMap", "VecDeque", "Inkayaku", "Rs", "Except"].contains(&w) && !out.contains(&w.to_string()) { out.push(w.to_string()); } },
             RTy::Opt(t) | RTy::VecFn(t) | RTy::VecList(t) | RTy::VecDeque(t) => collect_opaque(t, out),
             RTy::HashMap(k, v) => { collect_opaque(k, out); collect_opaque(v, out); }
             RTy::Tuple(ts) => for t in ts { collect_opaque(t, out); },
@@ -696,6 +714,8 @@ fn translate_fn(world: &World, t: &'static Target, sig: &syn::Signature, block: 
     for p in &params { collect_opaque(&p.ty, &mut tyvars); }
     collect_opaque(&ret, &mut tyvars);
     for t in &ctor_fields { collect_opaque(t, &mut tyvars); }
+    // (names of regenerated enums / structs inside the type of an opaque function are not type variables)
+    tyvars.retain(|v| !world.enums.contains_key(v) && !world.structs.contains_key(v));
     if !tr.pending.is_empty() { return Err(tr.err(sig, "internal: pending statements left")); }
 
     let ret_lean = if !ctor_fields.is_empty() { RTy::Tuple(ctor_fields.clone()).lean_atom() } else if tr.self_mutated.is_empty() && tr.inout.is_empty() { ret.lean_atom() } else {
